@@ -668,6 +668,7 @@ type world struct {
 	ce, se      *pipeEnd         // the connection of the open channel: client end, server end (nil = no channel)
 	srvDone     chan struct{}    // closed when the server's handle() of the channel connection has returned
 	ready       bool             // listen() is known to be waiting in Connect
+	migrate     []byte           // the Session as the old process marshalled it for the new one (nil = not moving)
 	chanRekeyed bool             // an idle tick inside a channel drew a re-key
 	oldShare    *data.SharedKeys
 	hist        []round
@@ -768,6 +769,13 @@ func (w *world) stopLoop() {
 // do executes one round: one exchange, plus a second one when a data Packet stayed queued
 // behind a re-key announcement (next() sends a Packet that carries key material alone).
 func (w *world) do(r round) {
+	if strings.HasPrefix(r.Kind, "move-") {
+		if w.ce != nil {
+			w.channel(round{Kind: "chan-end"})
+		}
+		w.move(r)
+		return
+	}
 	isChan := strings.HasPrefix(r.Kind, "chan-")
 	if !isChan && w.ce != nil {
 		w.channel(round{Kind: "chan-end"}) // the client is inside channelWrite until the channel ends
@@ -808,6 +816,57 @@ func (w *world) drawRekey(short bool) (*com.Packet, int) {
 	return nil, 0
 }
 
+// move: "move-start" = what Migrate does before it waits for the new process (stateMoving, the real
+// writeDeviceInfo(infoMigrate) into a buffer); the exchange thread keeps running: the following rounds
+// are ordinary exchanges, re-key rolls included (keyNextSync must refuse them).  "move-take" = the new
+// process: a Session filled by the real readDeviceInfo(infoMigrate) replaces the old one and goes on.
+// Oracle only (no event for the model: on the unchanged tree no key changes in between).
+func (w *world) move(r round) {
+	if w.cli == nil || w.loop == nil {
+		return
+	}
+	ss := c2.VerifC06ServerSession(w.l, w.id)
+	_, _, _, nx := c2.VerifC06Keys(w.cli)
+	switch r.Kind {
+	case "move-start":
+		if w.migrate != nil || ss == nil || nx != nil || w.taint != "" || c2.VerifC06QueueLen(w.cli) > 0 {
+			return
+		}
+		b, err := c2.VerifC06MoveStart(w.cli)
+		if err != nil {
+			recordFail("writeDeviceInfo(infoMigrate) failed: "+err.Error(), "migrate-setup", nil)
+			return
+		}
+		w.migrate = b
+		w.hist = append(w.hist, round{Kind: "move-start"})
+	case "move-take":
+		if w.migrate == nil {
+			return
+		}
+		w.hist = append(w.hist, round{Kind: "move-take"})
+		w.stopLoop() // the old process exits
+		n, err := c2.VerifC06TakeOver(w.id, w.cm, w.migrate)
+		w.migrate = nil
+		if err != nil {
+			recordFail("readDeviceInfo(infoMigrate) failed: "+err.Error(), "migrate-setup", map[string]interface{}{"history": w.hist})
+			w.cli = nil
+			return
+		}
+		w.cli = n
+		w.prof = &prof{conns: make(chan net.Conn), asked: make(chan struct{}, 1)}
+		w.loop = c2.VerifC06Listen(w.cli, w.prof)
+		w.consecFail, w.ready = 0, false
+		w.await()
+		_, _, cshare, _ := c2.VerifC06Keys(w.cli)
+		if ss != nil && w.taint == "" {
+			if _, _, sshare, _ := c2.VerifC06Keys(ss); sshare != cshare {
+				recordFail("the migrated Session (new process) and the server do not hold the same shared secret: a re-key ran between the marshalling of the keys and the take-over",
+					"migrated-session-key-differs", map[string]interface{}{"history": w.hist})
+			}
+		}
+	}
+}
+
 // channel executes one step of a channel on the REAL loops of both ends.  "chan-start" /
 // "chan-start-rekey": the client wants a channel (stateChannelValue), so the real session() puts
 // FlagChannel on its next Packet - an ordinary one, or the re-key announcement the forced roll drew -;
@@ -830,7 +889,7 @@ func (w *world) channel(r round) {
 	const patience = 10 * time.Second
 	switch r.Kind {
 	case "chan-start", "chan-start-rekey":
-		if w.ce != nil || ss == nil || c2.VerifC06QueueLen(w.cli) > 0 || w.taint != "" {
+		if w.ce != nil || ss == nil || c2.VerifC06QueueLen(w.cli) > 0 || w.taint != "" || w.migrate != nil {
 			return // (no channel inside a finding shape: its known outcome is stated in terms of exchanges)
 		}
 		if _, _, _, nx := c2.VerifC06Keys(w.cli); nx != nil {
@@ -841,6 +900,10 @@ func (w *world) channel(r round) {
 			r.Q = ints(q)
 		}
 		w.chanRekeyed = false
+		if !w.ready && !w.await() { // listen() must be past its wait(): the sleep is about to become one hour
+			bad = "listen() did not come round for the connection that starts the channel"
+			break
+		}
 		c2.VerifC06ChannelWanted(w.cli, true)
 		var n *com.Packet
 		k := 0
@@ -1026,6 +1089,13 @@ func (w *world) channel(r round) {
 	}
 }
 
+// rollWhileMoving: keyNextSync announced a new pair although Migrate has already marshalled the
+// current keys for the new process.
+func rollWhileMoving(w *world, r round) {
+	recordFail("keyNextSync drew a new KeyPair while the Session is being migrated (its keys are already marshalled for the new process)",
+		"rekey-drawn-while-moving", map[string]interface{}{"history": append(append([]round(nil), w.hist...), r)})
+}
+
 // rollWhilePending: the forced re-key roll produced an announcement although a pair was still
 // pending (keyNextSync must refuse: the pending pair is the one the server may already be using).
 func rollWhilePending(w *world, r round) {
@@ -1091,7 +1161,15 @@ func (w *world) exchange(r round) {
 		} else {
 			c2.VerifC06Queue(w.cli, &com.Packet{Device: w.id})
 		}
-		ev = append(ev, fmt.Sprintf("RekeySend %d", k))
+		if n == nil && nextBefore == nil {
+			// keyNextSync refused although no pair is pending (the Session is moving): an empty Packet goes out
+			ev = append(ev, "DataSend []")
+		} else {
+			ev = append(ev, fmt.Sprintf("RekeySend %d", k))
+		}
+		if n != nil && w.migrate != nil {
+			rollWhileMoving(w, r)
+		}
 		if n != nil && nextBefore != nil {
 			rollWhilePending(w, r)
 		}
@@ -1109,7 +1187,14 @@ func (w *world) exchange(r round) {
 		d := &com.Packet{ID: idClientData, Device: w.id, Job: uint16(2 + rng.Intn(60000))}
 		d.Write(p)
 		c2.VerifC06Queue(w.cli, d)
-		ev = append(ev, fmt.Sprintf("BatchSend %d %s", k, vh.Bytes(p)))
+		if n == nil && nextBefore == nil {
+			ev = append(ev, "DataSend "+vh.Bytes(p)) // refused while moving: only the data Packet is queued
+		} else {
+			ev = append(ev, fmt.Sprintf("BatchSend %d %s", k, vh.Bytes(p)))
+		}
+		if n != nil && w.migrate != nil {
+			rollWhileMoving(w, r)
+		}
 	default:
 		r.Kind = "data"
 		d := &com.Packet{Device: w.id}
@@ -1359,7 +1444,7 @@ func runHistory(rounds []round, class string) {
 	}
 	nontrivial := false
 	for _, r := range w.hist {
-		if r.Kind == "rekey" || r.Kind == "batch" || r.Kind == "hello" || strings.HasPrefix(r.Kind, "chan-") {
+		if r.Kind == "rekey" || r.Kind == "batch" || r.Kind == "hello" || strings.HasPrefix(r.Kind, "chan-") || strings.HasPrefix(r.Kind, "move-") {
 			nontrivial = true
 		}
 	}
@@ -1454,6 +1539,13 @@ func corpus() {
 	runHistory([]round{c, rd("rekey", "", "", ""), ch("start", "", ""), ch("up", "fresh-key", ""), ch("down", "", "fresh-key-down"), ch("end", "", ""),
 		sr2(), ch("start", "", ""), ch("down", "", "after-short-rekey"), ch("tick", "", ""), ch("up", "after-short-rekey-up", ""), ch("end", "", ""),
 		rd("rekey", "write", "", ""), ch("start", "", ""), ch("up", "after-failed-rekey", ""), ch("down", "", "d"), ch("tick", "", ""), ch("up", "u", "")}, "hist-channel")
+	// migration: the old process marshals the Session (keys included), keeps exchanging - the re-key roll fires
+	// in the window and must be refused -, then the new process takes over with what it was given and goes on
+	mvs, mvt := round{Kind: "move-start"}, round{Kind: "move-take"}
+	runHistory([]round{c, rd("rekey", "", "", "r"), rd("data", "", "before-migrate", "b"), mvs, rd("rekey", "", "", "roll-while-moving"), rd("data", "", "while-moving", "m"),
+		rd("batch", "", "queued-while-moving", "x"), rd("rekey", "", "", ""), mvt, rd("data", "", "new-process", "n"), rd("rekey", "", "", "rk"), rd("data", "", "after", "a")}, "hist-migrate")
+	runHistory([]round{c, mvs, rd("rekey", "write", "", ""), rd("rekey", "lost-before", "", ""), rd("rekey", "", "", "q"), mvt, rd("rekey", "", "", ""), rd("data", "", "p", "q"),
+		mvs, mvt, rd("data", "", "p2", "q2")}, "hist-migrate")
 	// re-registration: the server forgets, the client is told to register again
 	f := rd("data", "", "lost-on-the-floor", "")
 	f.Forget = 1
@@ -1508,6 +1600,17 @@ func randHistory(maxLen int, faults bool) []round {
 			r.Forget = 1 + rng.Intn(2)
 		}
 		rs = append(rs, r)
+		if rng.Intn(12) == 0 {
+			rs = append(rs, round{Kind: "move-start"})
+			for j := rng.Intn(4); j > 0; j-- {
+				k := "data"
+				if rng.Intn(2) == 0 {
+					k = "rekey"
+				}
+				rs = append(rs, round{Kind: k, P: randPayload(), Q: randPayload()})
+			}
+			rs = append(rs, round{Kind: "move-take"})
+		}
 		if rng.Intn(6) == 0 {
 			// a channel segment
 			if rng.Intn(3) == 0 {
@@ -1589,6 +1692,20 @@ func genPick(reps int) {
 			if client && channel && got == 2 {
 				recordFail("pick() drew a re-key announcement for a client inside a channel", "pick-draws-rekey-in-channel", desc)
 			}
+		}
+	}
+	// keyNextSync's guard, roll forced, in its 8 situations
+	for m := 0; m < 8; m++ {
+		client, pending, moving := m&1 != 0, m&2 != 0, m&4 != 0
+		s := ss
+		if client {
+			s = w.cli
+		}
+		drew := c2.VerifC06RollObs(s, pending, moving, 3000)
+		desc := map[string]interface{}{"fn": "(*Session).keyNextSync", "client": client, "pending": pending, "moving": moving, "drew": drew}
+		out.Add(fmt.Sprintf("CRoll %s %s %s %s", vh.B(client), vh.B(pending), vh.B(moving), vh.B(drew)), "roll", true, desc)
+		if drew && (moving || pending || !client) {
+			recordFail("keyNextSync announced a new pair although it must refuse (server Session, pair pending, or Session moving)", "rekey-roll-not-refused", desc)
 		}
 	}
 	w.stopLoop()
